@@ -100,8 +100,8 @@ def parseConstraint (data : List Str) (lock : LabelParts) (wheelDirs : List Str)
         if startsAny ["..".toList, "./../".toList] url then
           let parents := countSub "../".toList url
           let dirParts := splitChar '/' lock.package
-          let newPackage := joinSlash (dirParts.take (dirParts.length - parents))
-          let split := splitChar '/' url
+          let split := (splitChar '/' url).filter (fun part => part ≠ "..".toList ∧ part ≠ ".".toList)
+          let newPackage := joinSlash (dirParts.take (dirParts.length - parents) ++ split.take (split.length - 2))
           let wheel := (split.drop (split.length - 2)).headD [] ++ '/' :: (split.getLast?.getD [])
           .ok { package := package, version := version, sha256 := sha, via := via,
                 loc := .whl (lock.repository ++ "//".toList ++ newPackage ++ ':' :: wheel) }
